@@ -551,6 +551,8 @@ static void run_case(Toks &tk) {
 int main(int argc, char **argv) {
   if (argc < 2) return 2;
   int tmo = argc > 2 ? atoi(argv[2]) : 10;
+  int max_timeouts = argc > 3 ? atoi(argv[3]) : 4;  // after that many hangs the rest of the shard is skipped
+  int timeouts = 0;
   std::ifstream in(argv[1]);
   std::string line;
   while (std::getline(in, line)) {
@@ -564,6 +566,10 @@ int main(int argc, char **argv) {
     if (tk.t.size() < 3 || tk.t[0] != "CASE") continue;
     std::string id = tk.t[1];
     tk.p = 2;
+    if (timeouts >= max_timeouts) {
+      printf("%s SKIPPED\n", id.c_str());
+      continue;
+    }
     fflush(stdout);
     pid_t pid = fork();
     if (pid == 0) {
@@ -577,7 +583,10 @@ int main(int argc, char **argv) {
     waitpid(pid, &st, 0);
     if (WIFSIGNALED(st)) {
       int sg = WTERMSIG(st);
-      if (sg == SIGALRM) printf("\n%s TIMEOUT\n", id.c_str());
+      if (sg == SIGALRM) {
+        printf("\n%s TIMEOUT\n", id.c_str());
+        timeouts++;
+      }
       else printf("\n%s CRASH sig%d\n", id.c_str(), sg);
     } else if (WIFEXITED(st) && WEXITSTATUS(st) != 0) {
       printf("\n%s CRASH exit%d\n", id.c_str(), WEXITSTATUS(st));
